@@ -106,7 +106,7 @@ func runC16(c *Ctx) error {
 	// returns) followed by every "probe" input (an error where nothing on a fresh stack can recover)
 	for _, j := range errs {
 		var poison, probe [][]int
-		for _, in := range model.InputPool(inRng, j.CFG, 200, 3) {
+		for _, in := range model.InputPool(inRng, j.CFG, 1500, 2) {
 			m := j.LR.Parse(in, model.ParseOpts{FailAt: -1})
 			if m.Accepted || m.StepsExceeded {
 				continue
@@ -119,6 +119,8 @@ func runC16(c *Ctx) error {
 				probe = append(probe, in)
 			}
 		}
+		c.Add("systematic_poison_inputs", len(poison))
+		c.Add("systematic_probe_inputs", len(probe))
 		for _, x := range poison {
 			for _, y := range probe {
 				hists = append(hists, &histRef{job: j, items: []HistItem{{Toks: j.Names(x), Fail: -1, Render: true}, {Toks: j.Names(y), Fail: -1, Render: true}}})
